@@ -88,7 +88,11 @@ def exec_case(prop, case, budget=None):
     signal.signal(signal.SIGALRM, _alarm)
     signal.setitimer(signal.ITIMER_REAL, budget, WATCHDOG_REPEAT_S)
     try:
-        prop.run_case(case, R)
+        if case.get("k") == "history":
+            from . import history
+            history.run(R, prop.ID, case)
+        else:
+            prop.run_case(case, R)
     except Hang as err:
         R.fail(case.get("k", "?"), "hang", f"{err} ({budget}s)", tags=["hang"])
     except MemoryError:
@@ -349,6 +353,10 @@ def main(argv=None):
 
     n_model = model.selfcheck()
     cases = prop.cases(tier, seed)
+    if not os.environ.get("VERIF_NO_HISTORY"):
+        from . import history
+        # appended: the short, uniform history cases fill the tail of the schedule behind the property's long cases
+        cases = ([] if os.environ.get("VERIF_ONLY_HISTORY") else cases) + history.case_list(pid, tier)
     if hasattr(prop, "pre"):
         prop.pre(tier, seed)
     results = run_pool(prop, cases)
@@ -438,8 +446,12 @@ def main(argv=None):
     if harness_errors:
         for fl in harness_errors[:2]:
             print(f"HARNESS ERROR in case {json.dumps(fl['case'], default=str)[:300]}:\n{fl['detail']}")
-        print(f"{len(harness_errors)} harness errors - result is not a verdict")
-        return 2
+        if not violations:
+            print(f"{len(harness_errors)} harness errors - result is not a verdict")
+            return 2
+        # cases that did violate the property stand on their own (each has a replay file); harness code falling over
+        # next to them is usually a consequence of the same broken behaviour and must not turn the verdict into "none"
+        print(f"{len(harness_errors)} harness errors next to {len(violations)} violations - the violations are reported")
     if violations:
         for path, fl in lines:
             print(f"  {fl['op']} [{fl['kind']}] {fl['detail'][:240]}")
